@@ -20,7 +20,7 @@ PROPS = {
 }
 
 PROPS["C17"] = {
-    "proof_files": ["Proofs/Dispatch.v", "Proofs/Sched.v", "Proofs/SchedUse.v"],
+    "proof_files": ["Proofs/Dispatch.v", "Proofs/Sched.v", "Proofs/SchedUse.v", "Proofs/DispatchPlan.v"],
     "gen_files": ["Gen/SchedUse.v"],
     "corr": ["C17"],
     "trusted_base": ["tie to the code: CORRESPONDENCE - Model/Dispatch.v is hand-written; every reachable transition of a real sendFileState (small totals, exhaustively) and random long histories are re-evaluated on the model inside coqc",
